@@ -187,7 +187,7 @@ fn containers(case: &Case, reference: &[u8], ev: &mut Ev, tmp: &std::path::Path)
 }
 
 pub fn run(ctx: &Ctx) -> i32 {
-    let cases = small_cases(ctx, ctx.tier.pick(300, 3000));
+    let cases = small_cases(ctx, ctx.tier.pick(500, 3000));
     let tmp = ctx.root.join("target").join("tmp");
     let _ = std::fs::create_dir_all(&tmp);
     let maxpos = ctx.tier.pick(150, 2000);
